@@ -1,6 +1,6 @@
 (** C36 radix tree — [DeletePrefix]: the walk after [del_node] is the walk before without the
     keys having the prefix, the returned count is the number of removed bindings, and [wf]
-    is preserved (dead nodes and [mergeChild] included). *)
+    is preserved ([delEdge] and [mergeChild] included). *)
 From Verif Require Import Base.Prelude Model.C36_rhh Model.C36_radix
   Proofs.C36_radix_ord Proofs.C36_radix_wf Proofs.C36_radix_ins.
 From Coq Require Import Sorted.
@@ -42,15 +42,15 @@ Lemma del_both :
        walk n' = smap_delete_prefix (pi ++ prefix) (walk n)
        /\ cnt = (Z.of_nat (length (walk n)) - Z.of_nat (length (walk n')))%Z
        /\ ((r_prefix n' = r_prefix n /\ wf pi n')
-           \/ (b = false /\ exists cp, n' = RNode None (r_prefix n ++ cp) ENil))) /\
+           \/ (b = false /\ exists cp, r_prefix n' = r_prefix n ++ cp /\ wf (pi ++ cp) n'))) /\
   (forall es pi c tl, wfe pi es ->
      match del_edges es c (c :: tl) with
      | None => smap_delete_prefix (pi ++ c :: tl) (walk_edges es) = walk_edges es
-     | Some (es', cnt, cleared, cp) =>
+     | Some (es', cnt, cleared) =>
          walk_edges es' = smap_delete_prefix (pi ++ c :: tl) (walk_edges es)
          /\ cnt = (Z.of_nat (length (walk_edges es)) - Z.of_nat (length (walk_edges es')))%Z
-         /\ wfe pi es' /\ elabels es' = elabels es
-         /\ (cleared = true -> ecount es = 1%nat -> walk_edges es' = [])
+         /\ wfe pi es'
+         /\ (forall Q : N -> Prop, Forall Q (elabels es) -> Forall Q (elabels es'))
      end).
 Proof.
   apply rnode_redges_ind.
@@ -71,21 +71,29 @@ Proof.
       { intro L. rewrite smap_delete_prefix_app. f_equal.
         apply smap_delete_prefix_none. destruct leaf as [[k old]|]; [|constructor].
         subst k. apply kall_cons; [apply has_prefix_longer | constructor]. }
-      destruct (del_edges es c (c :: tl)) as [[[[es' cnt'] cleared] cp]|].
-      * destruct IH as (Hw & Hcnt & Hwf & Hlab & Hcl).
-        destruct (cleared && negb b && Nat.eqb (ecount es) 1 && is_none leaf) eqn:M.
-        -- apply andb_true_iff in M as [M M4]. apply andb_true_iff in M as [M M3].
-           apply andb_true_iff in M as [M1 M2].
-           apply Nat.eqb_eq in M3. destruct leaf; [discriminate|].
-           destruct b; [discriminate|].
-           injection E as <- <-.
-           specialize (Hcl M1 M3). rewrite Hcl in *.
-           rewrite !walk_node. cbn [leaf_list walk_edges app].
-           split; [exact Hw|]. split; [simpl length in *; lia|].
-           right. split; [reflexivity|]. exists cp. reflexivity.
-        -- injection E as <- <-. rewrite !walk_node, LF, <- Hw.
-           split; [reflexivity|]. split; [rewrite !app_length; lia|].
-           left. split; [reflexivity|]. split; assumption.
+      destruct (del_edges es c (c :: tl)) as [[[es' cnt'] cleared]|].
+      * destruct IH as (Hw & Hcnt & Hwf & Hlab).
+        assert (GEN : (RNode leaf p es', cnt') = (n', cnt) ->
+          walk n' = smap_delete_prefix (pi ++ c :: tl) (walk (RNode leaf p es))
+          /\ cnt = (Z.of_nat (length (walk (RNode leaf p es))) - Z.of_nat (length (walk n')))%Z
+          /\ ((r_prefix n' = r_prefix (RNode leaf p es) /\ wf pi n')
+              \/ (b = false /\ exists cp, r_prefix n' = r_prefix (RNode leaf p es) ++ cp
+                                          /\ wf (pi ++ cp) n'))).
+        { intro E'. injection E' as <- <-. rewrite !walk_node, LF, <- Hw.
+          split; [reflexivity|]. split; [rewrite !app_length; lia|].
+          left. split; [reflexivity|]. split; assumption. }
+        destruct (cleared && negb b && is_none leaf) eqn:M; [|exact (GEN E)].
+        apply andb_true_iff in M as [M M3]. apply andb_true_iff in M as [M1 M2].
+        destruct leaf; [discriminate|]. destruct b; [discriminate|].
+        destruct es' as [|l1 [cl1 cp1 ces1] [|l2 ch2 r2]]; [exact (GEN E) | | exact (GEN E)].
+        clear GEN.
+        injection E as <- <-.
+        change (walk (RNode cl1 (p ++ cp1) ces1)) with (walk (RNode cl1 cp1 ces1)).
+        rewrite (walk_node None p es), LF, <- Hw, Hcnt, walk_edges_cons.
+        cbn [leaf_list walk_edges app]. rewrite app_nil_r.
+        split; [reflexivity|]. split; [reflexivity|].
+        right. split; [reflexivity|]. exists cp1. split; [reflexivity|].
+        destruct Hwf as (_ & Hwf1 & _). exact Hwf1.
       * injection E as <- <-. rewrite !walk_node, LF, IH.
         split; [reflexivity|]. split; [lia|].
         left. split; [reflexivity|]. split; assumption.
@@ -119,18 +127,16 @@ Proof.
                   else skipn (length cp) (c :: tl)) as pr eqn:Epr.
         clear Epr NP.
         destruct pr as [|x r'].
-        -- (* the whole child goes *)
+        -- (* the whole child goes: its edge is removed *)
            specialize (A1 eq_refl). clear A2.
            assert (KA : smap_delete_prefix (pi ++ c :: tl) (walk ch) = []).
            { apply smap_delete_prefix_all. eapply kall_impl; [|exact Ku].
              intros k [r ->]. apply has_prefix_spec in A1 as [r1 ->].
              apply has_prefix_spec. exists (r1 ++ r). nap. reflexivity. }
            rewrite !walk_edges_cons, smap_delete_prefix_app, KA, KR.
-           change (walk (RNode None cp ENil)) with (@nil (bytes * Z)).
            split; [reflexivity|]. split; [rewrite !app_length; simpl length; lia|].
-           split; [|split; [reflexivity|]].
-           ++ cbn [wfe r_prefix]. split; [eauto|]. split; [apply wf_dead|]. split; assumption.
-           ++ intros _ EC. destruct rest; [reflexivity | simpl in EC; discriminate].
+           split; [exact Hr|].
+           intros Q F. cbn [elabels] in F. inversion F; assumption.
         -- (* descend *)
            specialize (A2 x r' eq_refl). clear A1.
            destruct (del_node false ch (x :: r')) as [ch' cnt] eqn:ED.
@@ -138,25 +144,25 @@ Proof.
            rewrite <- app_assoc, <- A2 in Hw.
            rewrite !walk_edges_cons, smap_delete_prefix_app, KR, <- Hw.
            split; [reflexivity|]. split; [rewrite !app_length; lia|].
-           split; [|split; [reflexivity | discriminate]].
-           cbn [wfe]. destruct Hdis as [[Hpre Hwf]|[_ [cp2 ->]]].
+           split; [|intros Q F; exact F].
+           cbn [wfe]. destruct Hdis as [[Hpre Hwf]|[_ (cp2 & Hpre & Hwf)]].
            ++ rewrite Hpre. subst ch. cbn [r_prefix]. split; [eauto|]. split; [exact Hwf|].
               split; assumption.
-           ++ subst ch. cbn [r_prefix]. rewrite Hp. split; [simpl; eauto|].
-              split; [apply wf_dead|]. split; assumption.
+           ++ rewrite Hpre. subst ch. cbn [r_prefix]. rewrite Hp.
+              split; [simpl; eauto|].
+              split; [rewrite <- Hp, app_assoc; exact Hwf|]. split; assumption.
     + (* another label *)
       assert (KC : smap_delete_prefix (pi ++ c :: tl) (walk ch) = walk ch).
       { apply smap_delete_prefix_none. eapply kall_impl; [|exact Kc].
         intros k Hk. apply ekey_noprefix. revert Hk. apply ekey_impl. intros; congruence. }
       specialize (IHr pi c tl Hr).
-      destruct (del_edges rest c (c :: tl)) as [[[[rest' cnt] cleared] cp]|] eqn:ER.
-      * destruct IHr as (Hw & Hcnt & Hwf & Hlab & Hcl).
+      destruct (del_edges rest c (c :: tl)) as [[[rest' cnt] cleared]|] eqn:ER.
+      * destruct IHr as (Hw & Hcnt & Hwf & Hlab).
         rewrite !walk_edges_cons, smap_delete_prefix_app, KC, <- Hw.
         split; [reflexivity|]. split; [rewrite !app_length; lia|].
-        split; [|split].
-        -- cbn [wfe]. rewrite Hlab. split; [eauto|]. split; [exact Hc|]. split; assumption.
-        -- cbn [elabels]. rewrite Hlab. reflexivity.
-        -- intros _ EC. destruct rest; [simpl in ER; discriminate | simpl in EC; discriminate].
+        split.
+        -- cbn [wfe]. split; [eauto|]. split; [exact Hc|]. split; [apply Hlab, Hlt | exact Hwf].
+        -- intros Q F. cbn [elabels] in *. inversion F; subst. constructor; auto.
       * rewrite !walk_edges_cons, smap_delete_prefix_app, KC, IHr. reflexivity.
 Qed.
 
